@@ -152,3 +152,58 @@ Fixpoint py_redraw (test : pyval -> res pyval) (x : pyval) (draws : list pyval) 
   | [] => b <- test x ;; if py_truthy b then Err OutOfFuel else Ok (x, [])
   | d :: r => b <- test x ;; if py_truthy b then py_redraw test d r else Ok (x, draws)
   end.
+
+(* ---- added for util.lv_unpack: int(), x[n:], s.split(sep, n), `a, b = e`, and `while test: body` on explicit fuel ---- *)
+(* int(x).  For a str: Lib/PyStr.py_int (blanks of int(), one sign, ASCII digits with single underscores; a non-ASCII
+   character that is not white space is Unmodelled).  CPython additionally refuses a literal with more than
+   sys.get_int_max_str_digits() digit characters (ValueError; default 4300, changeable at run time by
+   sys.set_int_max_str_digits / PYTHONINTMAXSTRDIGITS / -X int_max_str_digits, 0 = no limit): py_int is int() without
+   that limit; a string that is long enough to possibly exceed the default limit is outside the modelled fragment
+   here (Unmodelled), never silently converted. *)
+Definition int_max_str_digits : nat := 4300.
+Definition py_int_of (x : pyval) : res pyval :=
+  match x with
+  | VStr s => if Nat.ltb int_max_str_digits (length s) then Unmodelled else (z <- py_int s ;; Ok (VInt z))
+  | VInt z => Ok (VInt z)
+  | VBool b => Ok (VInt (if b then 1 else 0))
+  | _ => Unmodelled
+  end.
+(* x[n:] on lists and strings (a negative n counts from the end) *)
+Definition py_slice_from (x n : pyval) : res pyval :=
+  match x, n with
+  | VList l, VInt z => Ok (VList (if 0 <=? z then skipn (Z.to_nat z) l else skipn (length l - Z.to_nat (- z)) l))
+  | VStr s, VInt z => Ok (VStr (slice_from z s))
+  | _, _ => Unmodelled
+  end.
+(* s.split(sep, 1) for a one-character separator: [s] when the separator does not occur, else [before; after] of the
+   FIRST occurrence.  Other limits / separators are outside the modelled fragment. *)
+Definition py_split_max (x sep n : pyval) : res pyval :=
+  match x, sep, n with
+  | VStr s, VStr [a], VInt 1 =>
+      Ok (VList (match split1_c a s with Some (l, v) => [VStr l; VStr v] | None => [VStr s] end))
+  | VStr s, VStr [], VInt _ => Err ValueError
+  | _, _, _ => Unmodelled
+  end.
+(* while test(state): body(state)   The source loop has no bound; the translation recurses on the explicit parameter
+   `fuel` (as many iterations as fuel allows): a loop that would need more gives the distinct error OutOfFuel, which the
+   refinement lemma of each translated function must show unreachable for the fuel it names.  The state is the list of
+   the variables carried from one iteration to the next, in the (sorted) order the translator lists them. *)
+Inductive wloop_ctl := WNext (s : list pyval) | WBreak (s : list pyval) | WReturn (v : pyval).
+Fixpoint py_while (fuel : nat) (test : list pyval -> res pyval) (body : list pyval -> res wloop_ctl) (s : list pyval)
+  : res (list pyval + pyval) :=
+  b <- test s ;;
+  if py_truthy b then
+    match fuel with
+    | O => Err OutOfFuel
+    | S f => c <- body s ;;
+             match c with WNext s' => py_while f test body s' | WBreak s' => Ok (inl s') | WReturn v => Ok (inr v) end
+    end
+  else Ok (inl s).
+
+(* t._replace(field=v) on a named tuple (injected as the object of its fields, in field order): a copy with that field
+   changed; an unknown field is Python's ValueError *)
+Definition py_nt_replace (o : pyval) (k : pystr) (v : pyval) : res pyval :=
+  match o with
+  | VObj f => if has_key k f then Ok (VObj (aset k v f)) else Err ValueError
+  | _ => Unmodelled
+  end.
